@@ -1,0 +1,35 @@
+//go:build verif
+
+// Contracts for the metrics wrapper around a storage engine, checked by /verif/kbv (build tag
+// "verif"). This file contains comments only; it adds no declarations to the package.
+
+package metrics
+
+// ---- C11 / C12: the wrapper passes every batch operation through unchanged ----
+// Each operation of the wrapped batch is exactly one identical operation on the inner batch (same
+// kind, same arguments, in the same position of the inner batch's ghost trace), and Commit
+// returns the inner Commit's error: behaviour is the inner engine's.
+//@ func (*batchWriteWrapper).PutIfNotExist(key, val, ttl)
+//@   props C11 C12
+//@   requires b != nil && b.BatchWrite != nil
+//@   modifies batchWriteWrapper.counter ghost.bw_n ghost.bw_kind ghost.bw_key ghost.bw_val ghost.bw_ttl
+//@   ensures [one-identical-inner-operation] bw_n == upd(old(bw_n), b.BatchWrite, old(bw_n)[b.BatchWrite]+1) && bw_kind == upd(old(bw_kind), b.BatchWrite, upd(old(bw_kind)[b.BatchWrite], old(bw_n)[b.BatchWrite], 1)) && bw_key == upd(old(bw_key), b.BatchWrite, upd(old(bw_key)[b.BatchWrite], old(bw_n)[b.BatchWrite], key)) && bw_val == upd(old(bw_val), b.BatchWrite, upd(old(bw_val)[b.BatchWrite], old(bw_n)[b.BatchWrite], val))
+
+//@ func (*batchWriteWrapper).CAS(key, newVal, oldVal, ttl)
+//@   props C11 C12
+//@   requires b != nil && b.BatchWrite != nil
+//@   modifies batchWriteWrapper.counter ghost.bw_n ghost.bw_kind ghost.bw_key ghost.bw_val ghost.bw_old ghost.bw_ttl
+//@   ensures [one-identical-inner-operation] bw_n == upd(old(bw_n), b.BatchWrite, old(bw_n)[b.BatchWrite]+1) && bw_kind == upd(old(bw_kind), b.BatchWrite, upd(old(bw_kind)[b.BatchWrite], old(bw_n)[b.BatchWrite], 2)) && bw_key == upd(old(bw_key), b.BatchWrite, upd(old(bw_key)[b.BatchWrite], old(bw_n)[b.BatchWrite], key)) && bw_val == upd(old(bw_val), b.BatchWrite, upd(old(bw_val)[b.BatchWrite], old(bw_n)[b.BatchWrite], newVal)) && bw_old == upd(old(bw_old), b.BatchWrite, upd(old(bw_old)[b.BatchWrite], old(bw_n)[b.BatchWrite], oldVal))
+
+//@ func (*batchWriteWrapper).Put(key, val, ttl)
+//@   props C11 C12
+//@   requires b != nil && b.BatchWrite != nil
+//@   modifies batchWriteWrapper.counter ghost.bw_n ghost.bw_kind ghost.bw_key ghost.bw_val ghost.bw_ttl
+//@   ensures [one-identical-inner-operation] bw_n == upd(old(bw_n), b.BatchWrite, old(bw_n)[b.BatchWrite]+1) && bw_kind == upd(old(bw_kind), b.BatchWrite, upd(old(bw_kind)[b.BatchWrite], old(bw_n)[b.BatchWrite], 3)) && bw_key == upd(old(bw_key), b.BatchWrite, upd(old(bw_key)[b.BatchWrite], old(bw_n)[b.BatchWrite], key)) && bw_val == upd(old(bw_val), b.BatchWrite, upd(old(bw_val)[b.BatchWrite], old(bw_n)[b.BatchWrite], val))
+
+//@ func (*batchWriteWrapper).Commit(ctx) (err)
+//@   props C11 C12
+//@   nosafety
+//@   requires b != nil && b.BatchWrite != nil && b.m != nil
+//@   modifies ghost.commits ghost.last_batch ghost.last_err ghost.batch_open ghost.floor ghost.floor_set
+//@   ensures [the-inner-commit-and-its-error] commits == old(commits)+1 && last_batch == b.BatchWrite && last_err == err && !batch_open
